@@ -10,7 +10,7 @@ Statement of the property, clause by clause:
   the real build obeys the discipline, whatever the file system answers                   C08_buildSteps_accepted
   "a later process that builds the same kernel ... succeeds and runs correct code"         C08_recovery
   the current source writes files only through staged temp names                          C08_write_sites_staged,
-                                                                                          C08_stage_shape
+                                                                                          C08_stage_shape, C08_cache_names
 Hypotheses (stated in the theorems): deterministic compiler (Spec.Coherent), atomic rename (one step),
 unique temp names (FreshOuts / TokFresh, CfgOK.toks_inj).
 -/
@@ -100,6 +100,11 @@ theorem C08_write_sites_staged : ∀ s ∈ Gen.BuildFS.writeSites, s.staged = tr
 /-- (T) io::stageFiles / getStagedTempFilename / moveStagedTempFile / io::write / the completion test have
     the shape the model was written against. -/
 theorem C08_stage_shape : ∀ x ∈ Gen.BuildFS.stageShape, x.2 = true := by decide
+
+/-- (T) the cache file names in the current source are the ones the model's pipeline spells out -/
+theorem C08_cache_names : Gen.BuildFS.cacheNames.map (·.2) =
+    ["build.json", "binary", ".raw_source", ".source.cpp", "string_source.cpp", "findCompilerVendor.cpp", "binary", "output",
+     "build.log", "compilerSupportsOpenMP.cpp", "binary", "output"] := by decide
 
 /-! ### the hypotheses are satisfiable by a non-trivial value -/
 
